@@ -64,6 +64,9 @@ CHECKS["C18"] = dict(text="three monitors: (1) thousands of prefixes / delimiter
 CHECKS["C19"] = dict(text="solved timeline problems (state variables, resources, interval/impulse predicates, agents; integer and fractional times) executed tick by tick with units_per_tick in {1/2, 1, 3/2, 2, 5} by a seeded scripted client that delays random starts/ends and reports failures; the executor_listener event log is checked by a per-atom state machine (time advance, exactly-once start/end in order, not before the planned time, not against the client's last answer, frozen values never move) and the plan after every tick by the C04/C05/C06 checkers, on Debug and Release builds",
                      note="liveness is restated as bounded progress (by horizon + a few ticks); execution_exception is a reported outcome that ends a history; histories that exceed 60 s are inconclusive",
                      technique="runtime monitoring: offline checker over the recorded executor event log with injected delays and failures")
+CHECKS["C20"] = dict(text="dense LRA call sequences (one pivot fans out into many row-update tasks) executed on the PARALLELIZE=OFF build and on the PARALLELIZE=ON build with thread-pool sizes 1/2/4/16 and seeded yields/sleeps injected at the start and end of every row-update task (pivot_task hook); every observable (results, values, bounds, learnt clauses, theory conflicts, in order) must equal the sequential run and the run must terminate; the same workload runs under ThreadSanitizer (own build) and every report with a frame in the repository is a violation; the evidence reports tasks executed, observed concurrency and distinct completion orders",
+                     note="schedules are sampled (pool size x injected delays x repetition) plus TSan's happens-before analysis, not enumerated; the pool size is forced through the guarded ORATIO_VERIF_POOL_SIZE knob",
+                     technique="runtime monitoring: ThreadSanitizer + parallel/sequential trace differential under injected schedule perturbation")
 NA_REASON = "check not built yet in this round (planned; see DESIGN.md)"
 
 hooks_commits = subprocess.run(["git", "-C", "/repo", "log", "--format=%h", "--grep=ORATIO_VERIF"], stdout=subprocess.PIPE, text=True).stdout.split()
